@@ -12,12 +12,14 @@ import (
 
 // Seams at which a Probe counts interactions and can inject one fault.
 const (
-	SeamDriveWrite = "drive_write"
-	SeamDriveRead  = "drive_read"
-	SeamOpenWriter = "open_writer"
-	SeamOpenReader = "open_reader"
-	SeamMeta       = "index_store"
-	SeamCacheRead  = "source_read"
+	SeamDriveWrite  = "drive_write"
+	SeamDriveRead   = "drive_read"
+	SeamOpenWriter  = "open_writer"
+	SeamOpenReader  = "open_reader"
+	SeamCloseReader = "close_reader"
+	SeamCloseWriter = "close_writer"
+	SeamMeta        = "index_store"
+	SeamCacheRead   = "source_read"
 )
 
 var Seams = []string{SeamDriveWrite, SeamDriveRead, SeamOpenWriter, SeamOpenReader, SeamMeta, SeamCacheRead}
@@ -76,6 +78,16 @@ func (p *Probe) Snapshot() (map[string]int, []int, bool) {
 		c[k] = v
 	}
 	return c, append([]int(nil), p.Writes...), p.Fired
+}
+
+// yield is a seam without fault injection: schedule perturbation only.
+func (p *Probe) yield(seam string) {
+	if p == nil {
+		return
+	}
+	if y := p.Yield; y != nil {
+		y(seam)
+	}
 }
 
 func (p *Probe) hit(seam string) error {
